@@ -28,6 +28,8 @@ def phys(ip: DimInterp):
 
 def check(ctx):
     repo = ctx.repo
+    ctx.rule("R08.9", "in the post-processing functions that take `units`, a quantity is stripped of its units (`.magnitude`) only after it was converted "
+                      "to explicit units on every path (flow-sensitive reaching definitions; two confirmed by-construction exceptions)", 12)
     ctx.rule("R08.8", "the unit labels of a Solution (field_units, current_units) are stored when it is created; they are not read through "
                       "the caller's mutable options object", 2)
     ctx.rule("R08.7", "the scales the solver reads from the device (K0, A0, Bc2 ...) are recomputed on every access, never memoised", 6)
@@ -111,6 +113,7 @@ def check(ctx):
     # -- the time-dependent evaluation sites use the same scale and the same points as the constructor ------
     units_forwarded(ctx)
     solution_unit_labels(ctx)
+    stripped_after_conversion(ctx)
     drive_siblings(ctx)
     # -- conversions in post-processing ------------------------------------------------------
     post_processing(ctx)
@@ -365,3 +368,76 @@ def solution_unit_labels(ctx):
                message=f"Solution.{name} returns {[norm(r) for r in rets]}" + (f", read through {through}: the options object belongs to the caller" if through else ""),
                consequence="re-using one SolverOptions object for a second solve in other units (or assigning options.field_units after a solve) relabels the "
                            "numbers of the earlier Solution: its applied vector potential is off by the ratio of the two units")
+
+
+# quantities that carry a known unit by construction: stripping them needs no conversion
+STRIP_OK = {
+    "device.coherence_length": "Device.coherence_length is layer.coherence_length * ureg(length_units): always in the device's length units",
+    "self.device.coherence_length": "as above",
+}
+
+
+def stripped_after_conversion(ctx):
+    """R08.9.  Every function of tdgl.solution / tdgl.em that takes a `units` parameter: each `.magnitude` / `.m` must be applied to a
+    value that, along every reaching definition, came out of `.to(...)` / `convert_field(...)`.  A bare number taken from a quantity
+    in "whatever unit it had" is in the unit system the device happened to be stated in."""
+    from ..cfg import build_cfg, parent_map
+    from ..dataflow import reaching_defs
+    repo = ctx.repo
+
+    def conv(e):
+        return any(isinstance(c, ast.Call) and ((isinstance(c.func, ast.Attribute) and c.func.attr in ("to", "ito", "to_base_units"))
+                                                or norm(c.func).split(".")[-1] == "convert_field") for c in ast.walk(e))
+    n_sites = 0
+    for f in repo.all_functions():
+        if not (f.module.name.startswith("tdgl.solution") or f.module.name == "tdgl.em"):
+            continue
+        fn = f.node
+        if "units" not in [a_.arg for a_ in fn.args.args + fn.args.kwonlyargs]:
+            continue
+        cfg = pm = None
+        for n in own_nodes(fn):
+            if not (isinstance(n, ast.Attribute) and n.attr in ("magnitude", "m") and isinstance(n.ctx, ast.Load)):
+                continue
+            if cfg is None:
+                cfg, pm = build_cfg(fn), parent_map(fn)
+            st = n
+            while not isinstance(st, ast.stmt):
+                st = pm[id(st)][0]
+
+            def unconverted(e, at, trail=()):
+                """None: converted on every path; "?": bound by a loop / with / parameter (not judged); else the offending source"""
+                if conv(e) or norm(e) in STRIP_OK:
+                    return None
+                if isinstance(e, ast.Subscript):
+                    return unconverted(e.value, at, trail)
+                if isinstance(e, ast.IfExp):
+                    return unconverted(e.body, at, trail) or unconverted(e.orelse, at, trail)
+                if isinstance(e, ast.Name):
+                    defs = reaching_defs(fn, e.id, at, cfg)
+                    if not defs:
+                        return "?"
+                    worst = None
+                    for s_, v in defs:
+                        if v is None:
+                            worst = worst or "?"
+                            continue
+                        if (id(s_), e.id) in trail:
+                            continue
+                        w = unconverted(v, s_, trail + ((id(s_), e.id),))
+                        if w and w != "?":
+                            return w
+                        worst = worst or w
+                    return worst
+                return f"`{norm(e)[:60]}`"
+            why = unconverted(n.value, st)
+            if why == "?":
+                continue
+            n_sites += 1
+            ctx.ob("R08.9", f"{f.qual}: `{norm(n)[:50]}` strips a value that was converted to explicit units", why is None,
+                   detail={"unconverted_source": why}, where=f.fq, construct=f"unit stripping `{norm(n)[:50]}` in {f.qual}", loc=loc(f, n),
+                   message=f"{f.qual}: `{norm(n)[:60]}` takes the bare numbers of {why}, which was never converted to the requested (or any explicit) units",
+                   consequence="the numbers returned for an explicitly requested unit are in the unit system the device was stated in: the same "
+                               "device and drive in um/uA and in nm/mA give results that differ by the ratio of the units")
+    if n_sites < 12:
+        raise AnalysisError(f"only {n_sites} unit-stripping sites found in the post-processing functions")
